@@ -442,6 +442,38 @@ def run(db: DB, rep: Report) -> None:
               "the roll-up is not guarded by 'this is the last Einsum' (get_einsum_ind() + 1 == "
               "len(get_all_einsums())); it would run before later Einsums registered their components")
 
+    # ---- M9 ------------------------------------------------------------------
+    rep.rule("M9", "every Einsum compiled for metrics is handed to the block builder (Fusion.add_einsum)", 1)
+    n_m9 = 0
+    for f in db.all_functions(["teaal.trans.hifiber."]):
+        for n in walk_no_nested(f.node):
+            if not (isinstance(n, ast.Call) and isinstance(n.func, ast.Attribute) and n.func.attr == "add_einsum"
+                    and "fusion" in norm(n.func.value).lower()):
+                continue
+            n_m9 += 1
+            atoms = []
+            for t, pol in paths.guards(n, stop=f.node):
+                atoms.extend(paths.expand_atoms(t, pol, f.node))
+            extra, unsure = [], False
+            for a, pol in atoms:
+                txt = norm(a)
+                for suf in (" is not None", " is None"):
+                    if txt.endswith(suf):
+                        txt = txt[:-len(suf)]
+                if txt in ("self.hardware", "self.format", "self.metrics", "self.arch", "self.bindings"):
+                    continue
+                extra.append(("" if pol else "not ") + norm(a)[:70])
+                if isinstance(a, ast.Name) or (isinstance(a, ast.Call) and norm(a.func).startswith("self.__")):
+                    unsure = True
+            rep.check("M9", not extra, db.loc(n), f.short, "add-einsum-guard",
+                      "Fusion.add_einsum runs for every Einsum whenever hardware and format are given",
+                      "%s hands the Einsum to Fusion.add_einsum only under %s: an Einsum for which that is "
+                      "false belongs to no block, so metrics['blocks'] and the roll-up of the total time "
+                      "are taken over the wrong blocks (its neighbours merge across it, or the final "
+                      "roll-up is never emitted)" % (f.short, extra), decided=not unsure)
+    if n_m9 < 1:
+        raise AnalysisError("no call of Fusion.add_einsum found in teaal.trans.hifiber")
+
     # ---- M5 ------------------------------------------------------------------
     rep.rule("M5", "roll-up is sum over blocks of max over components of sum over Einsums", 4)
     fn = bt.node
@@ -601,6 +633,9 @@ def mutants(db: DB):
     col = "teaal/trans/collector.py"
     comp = "teaal/ir/component.py"
     return [
+        M("Einsums that bind no component skip the block builder (C14-u3)", "teaal/trans/hifiber.py",
+          "        if self.hardware and self.format:\n            self.metrics = Metrics(self.program, self.hardware, self.format)\n            self.fusion.add_einsum(self.program)",
+          "        if self.hardware and self.format:\n            self.metrics = Metrics(self.program, self.hardware, self.format)\n            if self.hardware.get_components(self.program.get_equation().get_output().root_name(), FunctionalComponent):\n                self.fusion.add_einsum(self.program)", "M9"),
         M("revert F16 fix (depth-first traffic path)", "teaal/ir/hardware.py",
           "            level, depth = levels.pop(0)", "            level, depth = levels.pop()", "M8"),
         M("single-component block uses the last Einsum's time", col,
